@@ -220,7 +220,7 @@ Theorem nulls_ordering_form b e o n :
   rorder is_alpha b T rq (OrderExpr e o (Some n)) =
   match b with
   | MySQL =>
-      rex is_alpha b T rq e ++ (match n with NLast => wss " IS NULL ASC, " | NFirst => wss " IS NULL DESC, " end) ++
+      rex is_alpha b T rq (EBinary e BIs (EKeyword KwNull)) ++ (match n with NLast => wss " ASC, " | NFirst => wss " DESC, " end) ++
       rorder is_alpha b T rq (OrderExpr e o None)
   | _ =>
       rorder is_alpha b T rq (OrderExpr e o None) ++
